@@ -415,6 +415,16 @@ Definition materialize_ok (cts : list (string * stype)) (seps : list (string * o
            (df : pdataframe) (st_obs : stats) (o : obs) : bool :=
   match materialize cts seps target (fun _ => computed)
                     (fun c => match lookup widths c with Some w => w | None => 0 end) supplied df with
-  | Some (st', d1, tf) => stats_eqb st' st_obs && obs_ok d1 tf o
+  | Some (st', d1, tf) =>
+      stats_eqb st' st_obs && obs_ok d1 tf o
+      (* the dataset's own frame converted again, with the mappers of the FINAL statistics, from the
+         state the materialization left: must again be the TensorFrame observed *)
+      && match fits_of cts seps st' with
+         | Some fits' => match pcall fits' target d1 df with
+                         | Some (d2, tf2) => obs_ok d2 tf2 o
+                         | None => false
+                         end
+         | None => false
+         end
   | None => false
   end.
